@@ -1415,3 +1415,73 @@ pub fn t13w() -> BoxedStrategy<Value> {
         })
         .boxed()
 }
+
+/// T14: two writers on one cell. A's store / swap into a cell (empty or not) is parked at a load or
+/// swap site inside the call; B writes the same cell (store / swap / CAS from what it loads);
+/// A resumes. Whatever was in the cell and was overwritten must have been released exactly once:
+/// count conservation after the join and nothing left at quiescence decide.
+pub fn t14() -> BoxedStrategy<Value> {
+    (
+        0u8..48,
+        (any::<bool>(), 0u8..3, 0u32..3, 0u8..3, 0u8..3),
+        (any::<bool>(), any::<bool>(), 0u8..3),
+    )
+        .prop_map(|(align, (starts_empty, park, nth, a_how, b_how), (a_null, b_null, k))| {
+            let (a, b) = (0usize, 1usize);
+            const SITES: [u32; 3] = [site::LINK_LOAD, site::LINK_SWAP, site::LINK_CAS];
+            let mut t = TB::new(2);
+            t.new_node(a, "D", None, None, 3, 30);
+            t.new_node(b, "Y", None, None, 3, 40);
+            if !starts_empty {
+                t.new_node(a, "X", None, None, 3, 20);
+                t.pin(a);
+                t.store(a, C::Root(0), Some("X"), 0);
+                t.unpin(a, 0);
+            }
+            t.advance(a, k);
+            t.run(a);
+            // A's write, parked inside
+            t.pin(a);
+            match a_how {
+                0 => t.store(a, C::Root(0), if a_null { None } else { Some("D") }, 0),
+                1 => {
+                    if a_null {
+                        t.swap_null(a, C::Root(0), "aold");
+                    } else {
+                        t.swap(a, C::Root(0), "D", "aold");
+                    }
+                }
+                _ => {
+                    t.load(a, C::Root(0), 0, "acur");
+                    t.run(a);
+                    t.cas(a, C::Root(0), Some("acur"), if a_null { None } else { Some("D") }, false, "aprev", "acur2");
+                }
+            }
+            t.run_until_site(a, SITES[park as usize % 3], nth + 1);
+            // B's write
+            t.pin(b);
+            match b_how {
+                0 => t.store(b, C::Root(0), if b_null { None } else { Some("Y") }, 0),
+                1 => {
+                    if b_null {
+                        t.swap_null(b, C::Root(0), "bold");
+                    } else {
+                        t.swap(b, C::Root(0), "Y", "bold");
+                    }
+                }
+                _ => {
+                    t.load(b, C::Root(0), 0, "bcur");
+                    t.cas(b, C::Root(0), Some("bcur"), if b_null { None } else { Some("Y") }, true, "bprev", "bcur2");
+                }
+            }
+            t.unpin(b, 0);
+            t.run(b);
+            t.run(a);
+            t.unpin(a, 0);
+            t.run(a);
+            t.advance(b, 4);
+            t.run(b);
+            t.finish(align, "T14")
+        })
+        .boxed()
+}
